@@ -140,6 +140,7 @@ func (p *End) readable() bool { return p.closed || len(p.in.segs) > 0 || p.in.eo
 func (p *End) Read(b []byte) (int, error) {
 	vsched.Point()
 	vsched.WaitUntil(p.readable)
+	vsched.Progress()
 	return p.read(b)
 }
 
@@ -165,6 +166,7 @@ func (p *End) read(b []byte) (int, error) {
 
 func (p *End) Write(b []byte) (int, error) {
 	vsched.Point()
+	vsched.Progress()
 	if p.closed {
 		return 0, errors.New("use of closed network connection")
 	}
